@@ -19,8 +19,8 @@ RULE = ("Random tier: Hypothesis draws a size n (1..70 quick, ..200 thorough, bi
         "for every n in 1..N (N=10 quick, 12 thorough), every one of the 2^n states, every operation "
         "kind at every index in [-2, n+2] and every value. Non-trivial = the history has >=1 write, "
         ">=1 rejected access and n % 8 != 0; distinct by (n, operations).")
-ASSUMPTIONS = ["only integer indices and integer/bool values are generated (other types are outside "
-               "the property)"]
+ASSUMPTIONS = ["indices are integers or FRACTIONAL floats k+0.5 (which are outside 0..n-1 by definition and must be refused); "
+               "values are integers / bools; other types are outside the property"]
 
 VALUES = [0, 1, True, False, 2, -1, 3]
 
@@ -48,6 +48,7 @@ def strategy(tier):
             st.integers(-n - 3, n + 10),
             st.sampled_from([-1, 0, n - 1, n, n + 1, top - 1, top, top + 1, 2 ** 31, 2 ** 70,
                              -2 ** 40]),
+            st.integers(-2, n).map(lambda k: k + 0.5),  # fractional positions: never valid
         )
         op = st.one_of(
             st.tuples(st.sampled_from(["set", "clear", "check", "isset", "get"]), idx),
@@ -90,6 +91,25 @@ def _agree(ctx, b, model, what):
     ctx.check("C20.state", b.num_bits_set() == sum(model), f"{what}: num_bits_set")
     ctx.check("C20.state", b.size == n and b.size_bytes == math.ceil(n / 8), f"{what}: size")
     ctx.check("C20.state", [b.check_bit(i) for i in range(n)] == model, f"{what}: check_bit sweep")
+    it = list(b)  # iterating a Bitarray (the sequence protocol) yields exactly its n bits
+    ctx.check("C20.state", it == model, lambda: f"{what}: list(bitarray) has {len(it)} entries / differs from the {n} model bits")
+
+
+def _do(b, kind, idx, val):
+    def doit():
+        if kind == "set":
+            return b.set_bit(idx)
+        if kind == "clear":
+            return b.clear_bit(idx)
+        if kind == "assign":
+            b[idx] = val
+            return None
+        if kind == "check":
+            return b.check_bit(idx)
+        if kind == "isset":
+            return b.is_bit_set(idx)
+        return b[idx]
+    return doit
 
 
 def _apply(ctx, b, model, op):
@@ -110,6 +130,11 @@ def _apply(ctx, b, model, op):
         return kind == "clearall", False
     idx = op[1]
     val = op[2] if kind == "assign" else None
+    if isinstance(idx, float):
+        # a fractional position is never one of 0..n-1: it must be refused (IndexError / TypeError / ValueError), nothing may change
+        status, r = ctx.lib("C20.rejects", _do(b, kind, idx, val), allow=(IndexError, ValueError, TypeError))
+        ctx.check("C20.rejects", status == "exc", f"{kind} at the fractional index {idx!r} on size {n} was accepted (returned {r!r})")
+        return False, True
     valid = 0 <= idx < n and (kind != "assign" or val in (0, 1))
 
     def doit():
@@ -152,7 +177,7 @@ def run_case(case, ctx):
     if case.get("exh"):
         bits = [(case["state"] >> i) & 1 for i in range(n)]
         kinds = ["set", "clear", "check", "isset", "get"]
-        for idx in range(-2, n + 3):
+        for idx in list(range(-2, n + 3)) + [-0.5, 0.5, n - 0.5]:
             todo = [[k, idx] for k in kinds] + [["assign", idx, v] for v in VALUES]
             for op in todo:
                 b = _build(Bitarray, n, bits, ctx)
